@@ -25,7 +25,7 @@ ASSUMPTIONS = [
     "the independent RFC-6902 interpreter in this file is correct (60 lines, no shared code with jsonpatch)",
     "documents beyond the generator bounds (more than 6 patches / 3 labels) are not explored",
 ]
-REQUIRED = ("accept", "lookup_hit", "lookup_miss", "verify_ok", "verify_corrupt", "apply")
+REQUIRED = ("accept", "lookup_hit", "lookup_miss", "verify_ok", "verify_corrupt", "apply", "apply_aliasing")
 
 RESERVED = ["name", "values", "metadata", "patches", "labels", "digests", "patch", "version"]
 PLAIN = ["sig_100", "m1_300_m2_100", "A", "b2", "point_7", "x", "SUSY_1000", "n0", "v"]
@@ -159,6 +159,28 @@ def _walk_t(doc, path):
     for p in path:
         cur = cur[p]
     return cur
+
+
+def scramble(doc):
+    """Edit every leaf of a JSON-like container in place."""
+    if isinstance(doc, dict):
+        for k in list(doc):
+            if isinstance(doc[k], (dict, list)):
+                scramble(doc[k])
+            elif isinstance(doc[k], bool) or doc[k] is None:
+                doc[k] = 7
+            elif isinstance(doc[k], (int, float)):
+                doc[k] = doc[k] + 1.5
+            elif isinstance(doc[k], str):
+                doc[k] = doc[k] + "_edited"
+    elif isinstance(doc, list):
+        for i in range(len(doc)):
+            if isinstance(doc[i], (dict, list)):
+                scramble(doc[i])
+            elif isinstance(doc[i], (int, float)) and not isinstance(doc[i], bool):
+                doc[i] = doc[i] + 1.5
+            elif isinstance(doc[i], str):
+                doc[i] = doc[i] + "_edited"
 
 
 def shuffle_keys(rng, doc):
@@ -434,6 +456,25 @@ def check_case(case, shard, exhaustive=True):
             shard.violate("C17/apply-wrong-result", f"apply({key!r}) differs from the independent RFC-6902 result", case, "apply")
         else:
             shard.ok("apply")
+            # aliasing history: the caller edits the returned workspace in place (every leaf), then applies again -
+            # with the background given as a plain dict and as a pyhf.Workspace.  The second result, the stored patch,
+            # the caller's document and the background must all be unaffected.
+            for as_ws in (False, True):
+                bg = pyhf.Workspace(copy.deepcopy(ws)) if as_ws else copy.deepcopy(ws)
+                first = ps.apply(bg, key)
+                scramble(first)
+                second = ps.apply(bg, key)
+                probs = []
+                if dict(second) != expected:
+                    probs.append("a second apply returns something else after the first result was edited in place")
+                if list(ps[nme]) != doc_before["patches"][i]["patch"] or doc != doc_before:
+                    probs.append("editing a returned workspace rewrote the stored patch / the caller's document")
+                if dict(bg) != ws:
+                    probs.append("the background workspace was modified")
+                if probs:
+                    shard.violate("C17/apply-result-aliases-patch", "; ".join(probs) + f" (background passed as {'pyhf.Workspace' if as_ws else 'dict'})", case, "apply_aliasing")
+                    break
+                shard.ok("apply_aliasing")
         # apply on a corrupted workspace must refuse
         bad = corrupt(ws, lv[rng.randrange(len(lv))][0]) if lv else None
         if bad is not None and bad != ws:
